@@ -34,6 +34,17 @@ pub fn n_hop_fold<'a>(input: Stream<i32, Process<'a, A>>, to: &Process<'a, B>) {
         .embedded_output("out0");
 }
 
+/// hop, then a (monotone) count on the receiver
+pub fn n_hop_count<'a>(input: Stream<i32, Process<'a, A>>, to: &Process<'a, B>) {
+    let tick = to.tick();
+    input
+        .send(to, TCP.fail_stop().bincode().name("ab"))
+        .count()
+        .snapshot(&tick, nondet!(/** harness observation shim: per-tick snapshot */))
+        .all_ticks()
+        .embedded_output("out0");
+}
+
 /// A -> B -> A round trip (two hops), order preserved end to end
 pub fn n_roundtrip<'a>(input: Stream<i32, Process<'a, A>>, b: &Process<'a, B>) {
     let a = input.location().clone();
